@@ -36,8 +36,11 @@ func doConc(f []string) string {
 	}
 	var stop atomic.Bool
 	var bg sync.WaitGroup
+	if adv && !haveHooks {
+		adv = false // the pools are reachable through the hooks only; the schedule still runs
+	}
 	if adv {
-		p4, p6 := otp.VerifPools()
+		p4, p6 := hkPools()
 		bg.Add(2)
 		go func() {
 			defer bg.Done()
@@ -149,7 +152,7 @@ type pkgState struct {
 }
 
 func snapshotPkg() pkgState {
-	reg := otp.VerifKnownSuites()
+	reg := hkKnownSuites()
 	names := make([]string, 0, len(reg))
 	for k, v := range reg {
 		names = append(names, fmt.Sprintf("%s=%+v", k, v))
@@ -192,7 +195,7 @@ func doCanary(f []string) string {
 		case "d6287":
 			key, g := guard(unhx(inner[1]), layout+5)
 			guards = append(guards, g)
-			out = strOrErr(otp.VerifDeriveRFC6287(key, c, in))
+			out = strOrErr(hkDerive6287(key, c, in))
 		}
 		if !reflect.DeepEqual(c, c0) {
 			dirty = "suite configuration changed"
@@ -225,10 +228,10 @@ func doCanary(f []string) string {
 		}
 	case "d4226":
 		key := gd(unhx(inner[1]), 0)
-		out = strOrErr(otp.VerifDeriveRFC4226(key, u64(inner[2]), int(i64(inner[3])), otp.Algorithm(u64(inner[4]))))
+		out = strOrErr(hkDerive4226(key, u64(inner[2]), int(i64(inner[3])), otp.Algorithm(u64(inner[4]))))
 	case "padb":
 		in := gd(unhx(inner[1]), 0)
-		res := otp.VerifPadBytes(in, int(i64(inner[2])))
+		res := hkPadBytes(in, int(i64(inner[2])))
 		out = okBytes(res)
 		// the result may be a view of the input (>= width) but must not have written anything
 	case "purl":
